@@ -6,9 +6,11 @@ Record sh := mkSh { hi : N; bm : N }.
 
 Definition sh_init : sh := {| hi := 0; bm := 0 |}.
 
-(* uint64 << d : Go gives 0 for d >= 64; trunc64 of the unbounded shift is the same value. *)
-Definition shl64 (x d : N) : N := trunc64 (shl x d).
-Definition bit64 (k : N) : N := trunc64 (onebit k).     (* uint64(1) << k *)
+(* uint64 << d : Go gives 0 for d >= 64; trunc64 of the unbounded shift is the same value
+   (SeqProofs.shl64_spec / Translated.go_shl_shl64), but must not be COMPUTED that way: a jump of
+   the sequence number by 2^31 would build a number of 2^31 bits. *)
+Definition shl64 (x d : N) : N := if 64 <=? d then 0 else trunc64 (shl x d).
+Definition bit64 (k : N) : N := if 64 <=? k then 0 else trunc64 (onebit k).     (* uint64(1) << k *)
 
 (* SequenceHandler.Check as repaired by fix D2: when the window advances, the slot of the
    previous highest sequence number is marked as received. *)
